@@ -31,6 +31,11 @@ def run(ctx, rep):
         chunk_write(prog, rep, tag)
         state_checks(prog, rep, tag)
         answers_nopanic(ctx, prog, rep, tag)
+        # "the cycle terminates": the image lock is not re-entrant, so no cycle function may reach a second
+        # acquisition of self.pdi while it holds its guard (tx_rx_sync_system_time -> tx_rx did)
+        from . import c20
+
+        c20.reentrancy(prog, rep, tag, P="C07.term")
 
 
 def cycle(prog, rep, fn, tag):
